@@ -16,7 +16,8 @@
    coq/Props/C17Share.v evaluated in the state the request meets:
 
      k=<class> r=<sread_stored> t=<-|0|1: target stored and file_stable> wf=<wf_label> all=<all_stable>
-     post=<stable>/<stored files after the request> new=<stable>/<files the request stored> *)
+     post=<stable>/<stored files after the request> new=<stable>/<files the request stored>
+     wfr=<-|0|1: wf_flat_result of a flatten that stored its result> *)
 open Model
 open Conv
 open Convz
@@ -193,8 +194,12 @@ let () =
          let stable = List.length (List.filter (fun (_, p) -> file_stable s' p) s'.ss_store) in
          let fresh = List.filter (fun (i, _) -> lookup !s.ss_store i = None) s'.ss_store in
          let fresh_stable = List.length (List.filter (fun (_, p) -> file_stable s' p) fresh) in
-         note (Printf.sprintf "k=%s r=%s t=%s wf=%s all=%s post=%d/%d new=%d/%d" (sclass (rclass_of r)) (b2s (sread_stored r)) t
-                 (b2s (wf_label !s r)) (b2s (all_stable !s)) stable stored fresh_stable (List.length fresh));
+         let wfr = match r with
+           | SFlatten (i, FlatOk (gs, _)) ->
+             (match lookup !s.ss_store i with None -> "-" | Some p -> b2s (wf_flat_result !s p gs))
+           | _ -> "-" in
+         note (Printf.sprintf "k=%s r=%s t=%s wf=%s all=%s post=%d/%d new=%d/%d wfr=%s" (sclass (rclass_of r)) (b2s (sread_stored r)) t
+                 (b2s (wf_label !s r)) (b2s (all_stable !s)) stable stored fresh_stable (List.length fresh) wfr);
          s := s';
          let nf = match c with NotFound -> int_of_n st | _ -> 0 in
          Printf.printf "nf=%d\t%s\n" nf (show_snapshot (snapshot s'))));
